@@ -604,6 +604,9 @@ class _SetOperation(Selectable, Term):  # type:ignore[misc]
     def get_sql(self, ctx: SqlContext) -> str:
         set_operation_template = " {type} {query_string}"
 
+        # The operands and clauses must not depend on where the set operation is embedded
+        subquery, with_alias = ctx.subquery, ctx.with_alias
+        ctx = ctx.copy(subquery=False, with_alias=False, subcriterion=False)
         set_ctx = ctx.copy(subquery=self.base_query.wrap_set_operation_queries)
         base_querystring = self.base_query.get_sql(set_ctx)
 
@@ -629,10 +632,10 @@ class _SetOperation(Selectable, Term):  # type:ignore[misc]
         querystring += self._limit_sql(ctx)
         querystring += self._offset_sql(ctx)
 
-        if ctx.subquery:
+        if subquery:
             querystring = "({query})".format(query=querystring)
 
-        if ctx.with_alias:
+        if with_alias:
             return format_alias_sql(
                 querystring,
                 self.alias or self._table_name,  # type:ignore[arg-type]
@@ -1407,6 +1410,8 @@ class QueryBuilder(Selectable, Term):  # type:ignore[misc]
         has_reference_to_foreign_table = self._foreign_table
         has_update_from = self._update_table and self._from
 
+        # The clauses of this statement must not depend on where the statement is embedded
+        subquery, with_alias = ctx.subquery, ctx.with_alias
         ctx = ctx.copy(
             with_namespace=any(
                 [
@@ -1416,7 +1421,10 @@ class QueryBuilder(Selectable, Term):  # type:ignore[misc]
                     has_reference_to_foreign_table,
                     has_update_from,
                 ]
-            )
+            ),
+            subquery=False,
+            with_alias=False,
+            subcriterion=False,
         )
 
         if self._update_table:
@@ -1511,12 +1519,12 @@ class QueryBuilder(Selectable, Term):  # type:ignore[misc]
         if self._for_update:
             querystring += self._for_update_sql(ctx)
 
-        if ctx.subquery:
+        if subquery:
             querystring = "({query})".format(query=querystring)
         if self._on_conflict:
             querystring += self._on_conflict_sql(ctx)
             querystring += self._on_conflict_action_sql(ctx)
-        if ctx.with_alias:
+        if with_alias:
             return format_alias_sql(querystring, self.alias, ctx)
 
         return querystring
